@@ -146,6 +146,10 @@ fn main() {
                     }
                 }
             }
+            // Structural inside a nested `mod` trips a Verus internal error: units can switch it off there only
+            if module.is_some() && unit["structural_mods"].as_bool() == Some(false) {
+                c.structural = false;
+            }
             if let Some(a) = src["chain_map"].as_array() {
                 for e in a {
                     c.chain_map.push((rules::norm(e["chain"].as_str().unwrap()), e["fn"].as_str().unwrap().to_string()));
